@@ -6,7 +6,7 @@ CONSTANTS
   MaxCalls = 4
   AllowRChoices = {{}}
   AllowSChoices = {{"R"}}
-  RecogAInit = {FALSE}
+  RecogAInit = {TRUE}
   ChainPeers = {"A"}
   MaxChain = 0
   MaxErr = 0
@@ -14,7 +14,7 @@ CONSTANTS
   Nonces = {1}
   HsBudget = 0
   MaxDials = 1
-  MaxAdvDials = 0
+  MaxAdvDials = 1
   MaxDrops = 0
   Handlers = {"h1", "h2"}
   CancelHandlers = {"h2"}
@@ -27,8 +27,8 @@ CONSTANTS
   Backoff1 = FALSE
   Backoff2 = TRUE
   CancelMsgs = {1}
-  MaxAdv = 0
-  AdvKinds = {"own", "impostor"}
+  MaxAdv = 1
+  AdvKinds = {"replay"}
   FwInbound = TRUE
   VerifyAct1 = TRUE
   MatchInner = TRUE
